@@ -58,6 +58,8 @@ pub struct Ctx {
     pub known: Vec<KnownFinding>,
     pub start: Instant,
     pub stop: AtomicBool,
+    /// Set when the harness itself failed (a panic outside the code under test).
+    pub infra: Mutex<Option<String>>,
     /// Scale factor for case counts (VERIF_SCALE, default 1.0); used by
     /// sensitivity runs to shorten or lengthen a search without editing code.
     pub scale: f64,
@@ -78,6 +80,7 @@ impl Ctx {
             known,
             start: Instant::now(),
             stop: AtomicBool::new(false),
+            infra: Mutex::new(None),
             scale,
         }
     }
@@ -501,6 +504,7 @@ where
                 std::thread::Builder::new()
                     .stack_size(WORKER_STACK)
                     .spawn_scoped(scope, move || {
+                      let body = || {
                         let seed = splitmix(ctx.seed ^ hash_str(&ctx.prop) ^ hash_str(self.label).rotate_left(17) ^ (w as u64).wrapping_mul(0xA24BAED4963EE407));
                         let config = Config {
                             cases: per as u32,
@@ -563,6 +567,11 @@ where
                             violations.lock().unwrap().push(Violation { key, detail, replay: path });
                         } else if let Err(TestError::Abort(reason)) = result {
                             rec.note(format!("family {} worker {} aborted: {}", self.label, w, reason));
+                        }
+                      };
+                        if let Err(p) = catch(body) {
+                            *ctx.infra.lock().unwrap() = Some(format!("harness panic in family {}: {}", self.label, p));
+                            ctx.stop.store(true, Ordering::Relaxed);
                         }
                         done.fetch_add(1, Ordering::Relaxed);
                     })
@@ -664,6 +673,7 @@ where
                 std::thread::Builder::new()
                     .stack_size(WORKER_STACK)
                     .spawn_scoped(scope, move || {
+                      let body = || {
                         let mut i = w as u64;
                         let mut local = LocalRec::new(self.sample_quota);
                         while i < total {
@@ -688,6 +698,11 @@ where
                             i += workers as u64;
                         }
                         rec.flush(self.label, &mut local);
+                      };
+                        if let Err(p) = catch(body) {
+                            *ctx.infra.lock().unwrap() = Some(format!("harness panic in family {}: {}", self.label, p));
+                            ctx.stop.store(true, Ordering::Relaxed);
+                        }
                         done.fetch_add(1, Ordering::Relaxed);
                     })
                     .unwrap();
@@ -878,6 +893,11 @@ pub fn run_property(ctx: &Ctx, prop: &Property, only_family: Option<&str>) -> i3
             rec.evaluations.load(Ordering::Relaxed)
         );
         violations.extend(v);
+    }
+    if let Some(msg) = ctx.infra.lock().unwrap().clone() {
+        write_evidence(ctx, prop, &rec, violations.len());
+        println!("INFRASTRUCTURE property={} {}", prop.id, msg);
+        return 3;
     }
     // distinct keys only
     let mut seen = HashSet::new();
